@@ -3,3 +3,5 @@ import PlasVerif.Properties.C01
 import PlasVerif.Properties.C04
 import PlasVerif.Properties.C19
 import PlasVerif.Properties.C18
+import PlasVerif.Properties.C09
+import PlasVerif.Properties.C08
